@@ -431,6 +431,11 @@ def gen_op(rng, st, cfg):
         if mode != "to_df" and rng.chance(fp * 2):
             op["damage"] = rng.choice(["drop_row", "dup_row", "nan"])
         return op
+    if kind == "valq":
+        return {"op": "valq", "f": rng.weighted([("sum_values", 1), ("sum_values_over", 3), ("sum_values_to", 3), ("cast_values_to", 3), ("items_where", 2),
+                                                 ("describe", 1), ("stock_balance", 1), ("check_stock_balance", 1), ("cohort_tables", 1), ("stock_str", 1)]),
+                "s": s, "k": rng.randint(0, 3), "dims": [rng.randint(0, 5) for _ in range(rng.randint(0, 4))], "form": rng.choice(["letter", "name", "dimobj"]),
+                "extra": gen_dims(rng, st, 0, 3), "rot": rng.randint(0, 4), "num": rng.randint(-2, 6)}
     if kind == "split":
         return {"op": "split", "s": s, "dim": rng.randint(0, 4)}
     if kind == "stack":
@@ -481,11 +486,11 @@ def gen_op(rng, st, cfg):
 
 def gen_cfg(rng, prop):
     base = {"mk": 5, "arith": 5, "reduce": 4, "slice": 5, "setitem": 6, "set_values": 3, "inplace_unary": 1, "df": 2,
-            "split": 1, "stack": 1, "stock": 2, "lifetime": 1, "stock_compute": 1, "system": 1, "stock_convert": 1, "plot": 0}
+            "split": 1, "stack": 1, "stock": 2, "lifetime": 1, "stock_compute": 1, "system": 1, "stock_convert": 1, "plot": 0, "valq": 1}
     if prop == "C05":
         base.update({"setitem": 16, "slice": 4, "stock": 0, "lifetime": 0, "stock_compute": 0, "system": 0, "stock_convert": 0, "df": 1, "set_values": 2})
     elif prop == "C15":
-        base.update({"slice": 9, "arith": 8, "reduce": 6, "mk": 7, "system": 3, "lifetime": 2, "plot": 1.5})
+        base.update({"slice": 9, "arith": 8, "reduce": 6, "mk": 7, "system": 3, "lifetime": 2, "plot": 1.5, "valq": 4})
     elif prop == "C13":
         base.update({"set_values": 6, "stock": 5, "lifetime": 3, "stock_compute": 4, "mk": 7})
     kinds = list(base)
